@@ -205,13 +205,21 @@ deriving DecidableEq, Repr
 def P.tok (stars : Nat) (p : P) : PTok := .param p.name stars p.ann p.dflt
 def P.pname (k : Kind) (p : P) : PName := ⟨p.name, k, p.ann, p.dflt⟩
 
+/-- `*args`, or the bare `*` that must precede keyword-only parameters when there is no `*args` -/
+def midToks (vp : Option P) (ko : List P) : List PTok :=
+  match vp with
+  | some p => [p.tok 1]
+  | none => if ko.isEmpty then [] else [.star]
+
+def vkToks (vk : Option P) : List PTok :=
+  match vk with
+  | some p => [p.tok 2]
+  | none => []
+
 /-- the children of `parameters` for the definition text of `s` -/
 def Sig.toks (s : Sig) : List PTok :=
   s.po.map (P.tok 0) ++ (if s.po.isEmpty then [] else [.slash]) ++ s.pk.map (P.tok 0) ++
-    (match s.vp with
-     | some p => [p.tok 1]
-     | none => if s.ko.isEmpty then [] else [.star]) ++
-    s.ko.map (P.tok 0) ++ (match s.vk with | some p => [p.tok 2] | none => [])
+    midToks s.vp s.ko ++ s.ko.map (P.tok 0) ++ vkToks s.vk
 
 /-- `inspect.signature(f).parameters` : names with Python's kinds -/
 def Sig.params (s : Sig) : List PName :=
